@@ -51,7 +51,56 @@ def units(tier, seed):
     us += [{"kind": "sub-c04", "idx": ch} for ch in chunks(list(range(n)), 8)]
     ncfg = len(joint.configurations("quick" if tier == "quick" else "quick"))
     us += [{"kind": "sub-joint", "idx": ch, "tier": "quick"} for ch in chunks(list(range(ncfg)), 48)]
+    sw = sweep_cases()
+    us += [{"kind": "sweep", "cases": ch} for ch in chunks(sw, 16)]
     return us
+
+
+def sweep_cases():
+    """Breadth sweeps (mc/sweeps.py): tokens in every role of merging / bridging / near-miss chains, chains onto converters
+    of n records, synonym lists with repetitions and large parents for get_subconverter."""
+    from .. import sweeps
+
+    J = recs_to_json
+    out = []
+    for t in sweeps.TOKENS:
+        tp = "" if ":" in t else t
+        a, b = [mrec("p" + tp, "u" + t + "/", ["q" + tp], ["v" + t])], [mrec("r", "w" + t + "/", ["r" + tp + "2"])]
+        bridge = [mrec("c9", "z9/", ["q" + tp], ["w" + t + "/"])]
+        merge = [mrec("q" + tp, "m" + t + "/", ["n" + tp])]
+        for cs in (True, False):
+            out.append({"kind": "chain", "seq": [J(a), J(b), J(bridge)], "cs": cs})
+            out.append({"kind": "chain", "seq": [J(a + b), J(bridge)], "cs": cs})
+            out.append({"kind": "chain", "seq": [J(a), J(merge), J(b)], "cs": cs})
+            for v in sweeps.variants("p" + tp)[:5]:
+                out.append({"kind": "chain", "seq": [J(a), J([mrec(v, "nm/")])], "cs": cs})
+            for v in sweeps.variants("u" + t + "/")[:5]:
+                out.append({"kind": "chain", "seq": [J(a), J([mrec("nm", v)])], "cs": cs})
+        out.append({"kind": "sub", "recs": J(a + b), "P": ["q" + tp]})
+        out.append({"kind": "sub", "recs": J(a + b), "P": ["r" + tp + "2", "zz"]})
+    for x, y in sweeps.TWINS:
+        for cs in (True, False):
+            out.append({"kind": "chain", "seq": [J([mrec(x, "u1/")]), J([mrec(y, "u2/")])], "cs": cs})
+            out.append({"kind": "chain", "seq": [J([mrec("p", "u" + x)]), J([mrec("r", "u" + y)])], "cs": cs})
+    for x, y in sweeps.URL_TWINS:
+        for cs in (True, False):
+            out.append({"kind": "chain", "seq": [J([mrec("one", x)]), J([mrec("two", y)])], "cs": cs})
+    for n in sweeps.COUNTS:
+        big = [mrec(f"p{i}", f"u{i}/", [f"s{i}"], [f"v{i}/"]) for i in range(n)]
+        k = n - 1
+        for cs in (True, False):
+            out.append({"kind": "chain", "seq": [J(big), J([mrec("p0", f"U{k}/")])], "cs": cs})     # exact hit + case-only hit elsewhere
+            out.append({"kind": "chain", "seq": [J(big), J([mrec(f"S{k}", "fresh/")])], "cs": cs})   # case-only hit
+            out.append({"kind": "chain", "seq": [J(big), J([mrec("new", "new/", [f"s{k}"], ["v0/"])])], "cs": cs})   # bridges first and last
+            out.append({"kind": "chain", "seq": [J(big[: n // 2]), J(big[n // 2:]), J([mrec("P0", "w/"), mrec(f"p{k}", "w2/")])], "cs": cs})
+        out.append({"kind": "sub", "recs": J(big), "P": [f"s{k}"]})
+        out.append({"kind": "sub", "recs": J(big), "P": ["p0", f"s{k}", f"p{n // 2}", "zz"]})
+    rep = [mrec("a", "x", ["s", "s"]), mrec("b", "y"), mrec("c", "z", ["t", "u", "t"], ["zz", "zz"])]
+    for P in subsets(["a", "s", "b", "t", "u", "q"]):
+        out.append({"kind": "sub", "recs": J(rep), "P": list(P)})
+    for cs in (True, False):
+        out.append({"kind": "chain", "seq": [J(rep), J([mrec("s", "x2"), mrec("t", "z2", ["t2", "t2"])])], "cs": cs})
+    return out
 
 
 def fold_eq(a, b):
@@ -217,6 +266,11 @@ def run_unit(unit, ctx):
                         case = {"kind": "chain", "seq": [recs_to_json(U[i]), recs_to_json(U[j]), recs_to_json(U[k])], "cs": cs}
                         for sig, msg in check_chain(case["seq"], cs, ctx)[:2]:
                             ctx.violation("C09/" + sig, msg, case)
+    elif kind == "sweep":
+        for case in unit["cases"]:
+            ctx.count("sweep_cases")
+            for sig, msg in replay(case, ctx)[:2]:
+                ctx.violation(sig, msg, case)
     elif kind == "sub-c04":
         for i in unit["idx"]:
             for P in subsets(SUB_P_C04):
@@ -232,11 +286,11 @@ def run_unit(unit, ctx):
                     ctx.violation("C09/" + sig, msg, case)
 
 
-def replay(case):
+def replay(case, ctx=None):
     if case["kind"] == "chain":
-        fails = check_chain(case["seq"], case["cs"], None)
+        fails = check_chain(case["seq"], case["cs"], ctx)
     else:
-        fails = check_sub(case["recs"], None, set(case["P"]), None)
+        fails = check_sub(case["recs"], None, set(case["P"]), ctx)
     return [("C09/" + s, m) for s, m in fails]
 
 
